@@ -175,3 +175,6 @@ b("b-c04-push-precompute", "C04,C19", [("src/instructions/push.rs", "let value =
   "no-op edit in PUSH r64")
 b("b-msg-only", "C16,C19,C20", [("src/elf/elf.rs", "ELF: Content is larger than specified in segment header", "ELF: segment content larger than its header says")],
   "error text reworded")
+b("b-rename-brk", "C13,C19,C20", [("src/helpers/syscalls.rs", "register_brk", "install_brk_hook", True)], "private registering function renamed")
+b("b-rename-pipe", "C14,C19,C20", [("src/helpers/syscalls.rs", "register_pipe", "install_pipe_hooks", True)], "private registering function renamed")
+b("b-rename-stack-impl", "C17,C10", [("src/state/memory.rs", "init_stack_program_start_impl", "build_entry_frame", True)], "private frame builder renamed")
